@@ -274,7 +274,9 @@ def run_case(case, ctx):
                     viol("canonical-form", cls, "cp_flip_sign left a column summary that is not real and non-negative in non-receiving mode %d: %r" % (k, sm_), desc)
                     break
                 continue
-            if np.any(sm_ < 0):
+            # a summary that is zero in the working precision carries no sign (documented: left untouched); recomputed in double it
+            # may come out as -1e-16 of the column's size
+            if np.any(sm_ < -64 * eps * np.sum(np.abs(ref.hp(of[k])), axis=0)):
                 viol("canonical-form", cls, "cp_flip_sign left a negative column summary in non-receiving mode %d" % k, desc)
                 break
         ctx.nontriv(desc)
